@@ -100,7 +100,8 @@ CHECKS = {
                  "(ghost pool_bounds), the option reaches the context unchanged; per-file frame - _process_file changes nothing of the shared "
                  "context and only its own file on disk; aggregation happens in process_results in input order. Syntactic obligation over every class of "
                  "the two packages: no class attribute holding a mutable object is mutated through instances unless __init__ re-binds it (per-file / "
-                 "per-run state is not shared between worker threads or runs)."),
+                 "per-run state is not shared between worker threads or runs); and no worker result is consumed in completion order (as_completed / wait / "
+                 "imap_unordered): the pool is read through executor.map only."),
         "note": ("Thread interleavings themselves are outside this family: schedule independence is argued from the frame contracts, not "
                  "explored. Hash-seed/enumeration-order obligations (registry, match_files) are part of C17/C05 when claimed."),
         "design_ref": "DESIGN.md section 4 C11",
